@@ -428,6 +428,8 @@ func doRun(j *sup.Job, res *sup.Result) {
 	rr.Fingerprint = rs.fp
 	rr.Rules = rs.rules
 	rr.Kinds = rs.kinds
+	rr.Dups = rs.dups
+	rr.DupSameIdent = rs.dupSameIdent
 	theSink.mu.Unlock()
 	rr.ProcCount = re.ProcessCount()
 	rr.DeadCount = re.DeadProcessCount()
